@@ -20,9 +20,10 @@ Total(case, z) == SumOver(SetToSeq(Comms(case)), LAMBDA c : Holding(case, c, z))
 HasFlow(case, lo, hi) ==
   \E n \in 1..Len(case.journal) :
      LET d == case.journal[n] IN
-     d.k = "trx" /\ lo <= d.z /\ d.z <= hi /\
+     d.k = "trx" /\ lo <= d.z /\ d.z <= hi /\ ~d.perf /\
      \E m \in 1..Len(d.bk) : d.bk[m].q # 0 /\ InF(case, d.bk[m].c) /\ (InP(case, d.bk[m].cr) # InP(case, d.bk[m].dr))
-\* transactions annotated with @performance are internal performance effects, not external flows
+\* transactions annotated with @performance are internal performance effects (a fee, a dividend), not external
+\* flows: a period with only such transactions has no flows and its return is end value over start value minus one
 HasPerfTrx(case, lo, hi) ==
   \E n \in 1..Len(case.journal) : case.journal[n].k = "trx" /\ lo <= case.journal[n].z /\ case.journal[n].z <= hi /\ case.journal[n].perf
 PriceChanged(case, lo, hi) ==
